@@ -684,7 +684,7 @@ def c08(ctx):
                           "mux (several representatives per class, chosen by seed) and status, body, audit sink, principal, rules applied and store "
                           "state are compared with the row"}
     return "model_checking", cov, ["WhoIs never returns a nil Node/UserProfile (tailscaled does not)",
-                                   "bodies with trailing garbage after a valid JSON value are outside the property's classes and are not sent",
+                                   "a body with more data after a valid JSON value is only sent as a read-only primer before malformed requests (nothing of an earlier request may leak into the next)",
                                    "quick tier: POST + one other method, application/json + one other content type, 'setec' + one other header value, rotated by seed"]
 
 
